@@ -42,7 +42,7 @@ class AoefProp(Prop):
         from ..core import REPO_SRC
 
         try:
-            self.extraction = E.extract_all(REPO_SRC)
+            self.extraction = E.extract_all(REPO_SRC, with_load=not self.REFERENCES_ONLY)
             diffs = E.differences(self.extraction)
             if self.REFERENCES_ONLY:
                 diffs = [d for d in diffs if "document fields written" not in d and "data fields rebuilt" not in d
